@@ -12,7 +12,8 @@ package main
 //   free/freel   the base of a free block with length page / longer
 //   inside       an address inside a free block, length 128
 //   outside      an address outside the pool
-//   biglen       a free block's base with a length byte > 128
+//   biglen       a free block's base with a length byte > 128 (written on the wire as such)
+//   shortlen     a free block's base (or an address inside it) with a length shorter than the pool's own
 // Every message is serialised and parsed back before it is handed to the
 // handler (direct or wrapped in Relay-Forward layers), and the reply is
 // serialised and parsed back before it is abstracted.
@@ -119,16 +120,16 @@ func (s *pfxScn) freeBlock() int {
 }
 
 // concretise a hint kind for client c. ok=false: this kind has no concrete form in this state.
-func (s *pfxScn) hint(c int, kind string) (*dhcpv6.OptIAPrefix, bool) {
+func (s *pfxScn) hint(c int, kind string) (dhcpv6.Option, bool) {
 	g := s.pg.g
-	mk := func(addr *big.Int, l int) *dhcpv6.OptIAPrefix {
+	mk := func(addr *big.Int, l int) dhcpv6.Option {
 		p := &dhcpv6.OptIAPrefix{PreferredLifetime: time.Duration(s.r.Intn(3)) * 1000 * time.Second, ValidLifetime: time.Duration(s.r.Intn(3)) * 2000 * time.Second}
 		ip := bigToIP(addr, 16)
-		if l <= 128 {
-			p.Prefix = &net.IPNet{IP: ip, Mask: net.CIDRMask(l, 128)}
-		} else {
-			p.Prefix = &net.IPNet{IP: ip, Mask: nil}
+		if l > 128 {
+			// the library cannot express a prefix-length byte above 128: write the option body by hand
+			return &rawIAPrefix{pref: uint32(s.r.Intn(3)) * 1000, valid: uint32(s.r.Intn(3)) * 2000, plen: byte(l), ip: ip}
 		}
+		p.Prefix = &net.IPNet{IP: ip, Mask: net.CIDRMask(l, 128)}
 		return p
 	}
 	longer := func() int {
@@ -139,12 +140,11 @@ func (s *pfxScn) hint(c int, kind string) (*dhcpv6.OptIAPrefix, bool) {
 	}
 	switch {
 	case kind == "nil":
-		p := mk(big.NewInt(0), 0)
 		if s.r.Intn(2) == 0 {
 			// a non-zero address with prefix-length 0 parses to a nil prefix as well
-			p.Prefix.IP = bigToIP(g.blockBase(s.r.Intn(g.n)), 16)
+			return mk(g.blockBase(s.r.Intn(g.n)), 0), true
 		}
-		return p, true
+		return mk(big.NewInt(0), 0), true
 	case kind == "zero":
 		return mk(big.NewInt(0), s.pg.page), true
 	case kind == "zerol":
@@ -183,7 +183,7 @@ func (s *pfxScn) hint(c int, kind string) (*dhcpv6.OptIAPrefix, bool) {
 		sort.Slice(cands, func(i, j int) bool { return cands[i].b < cands[j].b })
 		h := cands[s.r.Intn(len(cands))]
 		return mk(g.blockBase(h.b), h.len), true
-	case kind == "free", kind == "freel", kind == "inside", kind == "biglen":
+	case kind == "free", kind == "freel", kind == "inside", kind == "biglen", kind == "shortlen":
 		b := s.freeBlock()
 		if b < 0 {
 			return nil, false
@@ -202,6 +202,16 @@ func (s *pfxScn) hint(c int, kind string) (*dhcpv6.OptIAPrefix, bool) {
 			}
 			off := new(big.Int).Rand(s.r, g.bsize)
 			return mk(new(big.Int).Add(g.blockBase(b), off), 128), true
+		case "shortlen":
+			poolLen, _ := poolMaskLen(s.pg.pool)
+			if poolLen < 2 {
+				return nil, false
+			}
+			a := g.blockBase(b)
+			if s.r.Intn(2) == 0 && s.pg.page < 128 {
+				a = new(big.Int).Add(a, new(big.Int).Rand(s.r, g.bsize))
+			}
+			return mk(a, 1+s.r.Intn(poolLen-1)), true
 		default:
 			return mk(g.blockBase(b), 129+s.r.Intn(127)), true
 		}
@@ -213,6 +223,33 @@ func (s *pfxScn) hint(c int, kind string) (*dhcpv6.OptIAPrefix, bool) {
 		return mk(a, s.pg.page), true
 	}
 	return nil, false
+}
+
+func poolMaskLen(pool string) (int, int) {
+	_, n, err := net.ParseCIDR(pool)
+	if err != nil {
+		return 0, 0
+	}
+	return n.Mask.Size()
+}
+
+// rawIAPrefix is an IAPrefix option whose body is written byte by byte (RFC 8415 21.22): lifetimes,
+// prefix-length, 16 address bytes.
+type rawIAPrefix struct {
+	pref, valid uint32
+	plen        byte
+	ip          net.IP
+}
+
+func (o *rawIAPrefix) Code() dhcpv6.OptionCode { return dhcpv6.OptionIAPrefix }
+func (o *rawIAPrefix) String() string         { return fmt.Sprintf("rawIAPrefix %s/%d", o.ip, o.plen) }
+func (o *rawIAPrefix) FromBytes([]byte) error { return nil }
+func (o *rawIAPrefix) ToBytes() []byte {
+	b := make([]byte, 9, 25)
+	b[0], b[1], b[2], b[3] = byte(o.pref>>24), byte(o.pref>>16), byte(o.pref>>8), byte(o.pref)
+	b[4], b[5], b[6], b[7] = byte(o.valid>>24), byte(o.valid>>16), byte(o.valid>>8), byte(o.valid)
+	b[8] = o.plen
+	return append(b, o.ip.To16()...)
 }
 
 type pfxIA struct {
@@ -439,6 +476,7 @@ func (s *pfxScn) deliver(c, relay int, wire []byte, kinds [][]string) bool {
 var pfxIAShapes = [][]string{
 	{}, {"nil"}, {"nil", "nil"}, {"zero"}, {"zerol"}, {"own0"}, {"own1"}, {"own0", "nil"}, {"nil", "own0"}, {"own0", "own1"},
 	{"other"}, {"free"}, {"freel"}, {"inside"}, {"outside"}, {"ownlen0"}, {"biglen"}, {"free", "free"}, {"zero", "zero"}, {"own0", "free"},
+	{"shortlen"},
 }
 
 func pfxMessages(level int) [][]pfxIA {
@@ -515,7 +553,7 @@ func runPrefixBFS(t *Trace, seed int64, depth, level, shard, shards int) error {
 // long random histories, several clients, exhaustion
 func runPrefixSim(t *Trace, seed int64, count, shard, shards int) error {
 	gs := pfxGeoms()
-	kinds := []string{"nil", "zero", "zerol", "own0", "own1", "own2", "ownlen0", "other", "free", "freel", "inside", "outside", "biglen"}
+	kinds := []string{"nil", "zero", "zerol", "own0", "own1", "own2", "ownlen0", "other", "free", "freel", "inside", "outside", "biglen", "shortlen"}
 	for k := shard; k < count; k += shards {
 		r := rand.New(rand.NewSource(seed*7919 + int64(k)))
 		pg := gs[k%len(gs)]
